@@ -207,4 +207,530 @@ Proof. reflexivity. Qed.
 Lemma add_item_algebra g x d : add_item gexp (Algebra g) x d = zipw add x (firstn (adim g) d).
 Proof. reflexivity. Qed.
 
+(* ---- the updated tensor, item by item of its last dimension ---- *)
+Lemma firstn_app_exact {X} (x r : list X) : firstn (length x) (x ++ r) = x.
+Proof. rewrite firstn_app, Nat.sub_diag, firstn_all. cbn. apply app_nil_r. Qed.
+Lemma skipn_app_exact {X} (x r : list X) n : skipn (length x + n) (x ++ r) = skipn n r.
+Proof.
+  rewrite skipn_app. rewrite skipn_all2 by lia. cbn. f_equal. lia.
+Qed.
+Lemma chunk_concat_uniform w : forall (ls : list (list F)) t,
+  Forall (fun x => length x = w) ls -> t < length ls -> chunk w t (concat ls) = nth t ls [].
+Proof.
+  induction ls as [|x ls IH]; intros t HF Ht; [cbn in Ht; lia|].
+  inversion HF as [|? ? Hx HF']; subst. cbn [concat]. destruct t as [|t].
+  - unfold chunk. cbn [Nat.mul skipn nth]. apply firstn_app_exact.
+  - unfold chunk. cbn [nth]. replace (S t * length x) with (length x + t * length x) by lia.
+    rewrite skipn_app_exact. apply IH; [assumption | cbn in Ht; lia].
+Qed.
+
+Lemma concat_length_uniform w (ls : list (list F)) :
+  Forall (fun x => length x = w) ls -> length (concat ls) = length ls * w.
+Proof.
+  induction 1 as [|x ls Hx HF IH]; [reflexivity|]. cbn. rewrite app_length, IH, Hx. lia.
+Qed.
+
+Lemma g_mul_length g (a b : list F) : length (g_mul g a b) = S (adim g).
+Proof. destruct g as [|[|[|g]]]; reflexivity. Qed.
+
+Lemma chunk_len w t (l : list F) : (t + 1) * w <= length l -> length (chunk w t l) = w.
+Proof. intros H. unfold chunk. rewrite firstn_length_le; [reflexivity|]. rewrite skipn_length. lia. Qed.
+
+Lemma add_item_length k x d : k <> Euclid -> length x = pwidth k -> length d = pwidth k ->
+  length (add_item gexp k x d) = pwidth k.
+Proof.
+  intros Hk Hx Hd. destruct k as [|g|g]; [congruence| |].
+  - cbn [add_item pwidth] in *. rewrite zipw_length, firstn_length. lia.
+  - cbn [add_item pwidth]. apply g_mul_length.
+Qed.
+
+Lemma pwidth_pos k : 0 < pwidth k.
+Proof. destruct k as [|g|g]; cbn; try lia; destruct g as [|[|[|g]]]; cbn; lia. Qed.
+
+(* p.add_(d.view(p.shape)) on a LieTensor parameter of n items: item t becomes add_ of item t and
+   item t of the slice *)
+Lemma param_add_chunks (p : param) d n : pk p <> Euclid ->
+  pnumel p = n * pwidth (pk p) -> length d = n * pwidth (pk p) ->
+  length (pdata (param_add p d)) = pnumel p /\
+  forall t, t < n ->
+    chunk (pwidth (pk p)) t (pdata (param_add p d)) =
+    add_item gexp (pk p) (chunk (pwidth (pk p)) t (pdata p)) (chunk (pwidth (pk p)) t d).
+Proof.
+  intros Hk Hn Hd. pose proof (pwidth_pos (pk p)) as Hw.
+  rewrite (param_add_items p d Hk). cbv zeta. rewrite Hn, Nat.div_mul by lia.
+  set (w := pwidth (pk p)) in *.
+  assert (HF : Forall (fun x => length x = w)
+                 (zipw (add_item gexp (pk p)) (chunks w n (pdata p)) (chunks w n d))).
+  { apply Forall_forall. intros x Hin. apply (In_nth _ _ []) in Hin. destruct Hin as [t [Ht <-]].
+    rewrite zipw_length, !chunks_length, Nat.min_id in Ht.
+    rewrite (zipw_nth _ _ _ _ [] [] []) by (now rewrite chunks_length).
+    rewrite !chunks_nth by assumption.
+    apply add_item_length; [assumption | |]; apply chunk_len; unfold pnumel in Hn; nia. }
+  assert (HL : length (zipw (add_item gexp (pk p)) (chunks w n (pdata p)) (chunks w n d)) = n)
+    by (now rewrite zipw_length, !chunks_length, Nat.min_id).
+  split.
+  - rewrite (concat_length_uniform w) by assumption. now rewrite HL.
+  - intros t Ht. rewrite chunk_concat_uniform by (auto; lia).
+    rewrite (zipw_nth _ _ _ _ [] [] []) by (now rewrite chunks_length).
+    now rewrite !chunks_nth.
+Qed.
+
 End Update.
+
+(* ===================================================================================== *)
+(*  Part B (R): the matrices and right-hand sides handed to the solver                     *)
+(* ===================================================================================== *)
+#[local] Remove Hints NumQ NumZ : typeclass_instances.
+Local Open Scope R_scope.
+
+Section Systems.
+Implicit Types A B M J : @mat R.
+
+Lemma wf_map_diag n f A : wf n n A -> wf n n (map_diag f A).
+Proof.
+  intros HA. unfold map_diag. rewrite (wf_rows _ _ _ HA), (wf_cols _ _ _ HA).
+  apply wf_mkmat; [eapply wf_pos_r | eapply wf_pos_c]; eassumption.
+Qed.
+Lemma mget_map_diag n f A i j : wf n n A -> (i < n)%nat -> (j < n)%nat ->
+  mget (map_diag f A) i j = if Nat.eqb i j then f (mget A i j) else mget A i j.
+Proof.
+  intros HA Hi Hj. unfold map_diag. rewrite (wf_rows _ _ _ HA), (wf_cols _ _ _ HA).
+  now rewrite mget_mkmat.
+Qed.
+
+Definition prodR (l : list R) : R := fold_right Rmult 1 l.
+
+(* A.diagonal().add_(A.diagonal() * damping) applied k times, on the same matrix *)
+Lemma lm_A_entries n : forall (lams : list R) A i j, wf n n A -> (i < n)%nat -> (j < n)%nat ->
+  wf n n (lm_A A lams) /\
+  mget (lm_A A lams) i j =
+    if Nat.eqb i j then mget A i j * prodR (map (fun l => 1 + l) lams) else mget A i j.
+Proof.
+  induction lams as [|l lams IH]; intros A i j HA Hi Hj.
+  - split; [exact HA|]. unfold lm_A, prodR. cbn [fold_left map fold_right]. destruct (Nat.eqb i j); lra.
+  - unfold lm_A. cbn [fold_left]. fold (lm_A (lm_damp l A) lams).
+    assert (HA' : wf n n (lm_damp l A)) by (now apply wf_map_diag).
+    destruct (IH (lm_damp l A) i j HA' Hi Hj) as [Hw He]. split; [exact Hw|].
+    rewrite He. unfold lm_damp. rewrite (mget_map_diag n) by assumption.
+    destruct (Nat.eqb i j); [|reflexivity]. cbn [map prodR fold_right]. fold (prodR (map (fun l => 1 + l) lams)).
+    cbn [add mul NumR]. ring.
+Qed.
+
+(* lm_diag_closed_form: after k trials with dampings lam_1..lam_k,
+     diag A_k = clamp(diag (J_T J), min, max) * prod (1 + lam_j),   off-diagonal entries = those of J_T J *)
+Lemma lm_diag_closed_form n mn mx JT J (lams : list R) i j :
+  wf n n (mmul JT J) -> (i < n)%nat -> (j < n)%nat ->
+  mget (lm_A (lm_A0 mn mx JT J) lams) i j =
+    if Nat.eqb i j then clampT mn mx (mget (mmul JT J) i i) * prodR (map (fun l => 1 + l) lams)
+    else mget (mmul JT J) i j.
+Proof.
+  intros HM Hi Hj. unfold lm_A0.
+  destruct (lm_A_entries n lams (map_diag (clampT mn mx) (mmul JT J)) i j (wf_map_diag n _ _ HM) Hi Hj) as [_ He].
+  rewrite He. rewrite (mget_map_diag n) by assumption.
+  destruct (Nat.eqb i j) eqn:E; [|reflexivity]. apply Nat.eqb_eq in E. now subst.
+Qed.
+
+(* the clamp is the documented one *)
+Lemma clampT_spec (lo hi x : R) : lo <= hi ->
+  clampT lo hi x = Rmin (Rmax x lo) hi /\ lo <= clampT lo hi x <= hi /\ (lo <= x <= hi -> clampT lo hi x = x).
+Proof.
+  intros Hle. unfold clampT. cbn [ltb NumR].
+  destruct (Rltb x lo) eqn:E1.
+  - apply Rltb_true in E1. destruct (Rltb hi lo) eqn:E2.
+    + apply Rltb_true in E2. lra.
+    + apply Rltb_false in E2. rewrite Rmax_right by lra. rewrite Rmin_left by lra. repeat split; lra.
+  - apply Rltb_false in E1. destruct (Rltb hi x) eqn:E2.
+    + apply Rltb_true in E2. rewrite Rmax_left by lra. rewrite Rmin_right by lra. repeat split; lra.
+    + apply Rltb_false in E2. rewrite Rmax_left by lra. rewrite Rmin_left by lra. repeat split; lra.
+Qed.
+
+(* -A @ v = -(A @ v) *)
+Lemma vneg_vscal (v : list R) : vscal (- 1) v = vneg v.
+Proof.
+  apply (nth_ext _ _ 0 0).
+  - unfold vneg. now rewrite length_vscal, map_length.
+  - intros i Hi. rewrite length_vscal in Hi. change (nth i (vscal (-1) v) 0) with (vget (vscal (-1) v) i).
+    rewrite vget_vscal by assumption. unfold vneg, vget.
+    rewrite (nth_indep (map opp v) 0 (opp 0)) by (now rewrite map_length).
+    rewrite map_nth. cbn [opp mul zero NumR]. ring.
+Qed.
+Lemma mapply_mneg n m A (v : list R) : wf n m A -> mapply (mneg A) v = vneg (mapply A v).
+Proof.
+  intros HA. unfold mneg. cbn [opp one NumR]. rewrite (mapply_mscale n m) by assumption. apply vneg_vscal.
+Qed.
+
+Section Solver.
+Variable corr : cid -> @tensor R -> @mat R -> @tensor R * @mat R.
+Variable gexp : nat -> list R -> list R.
+Variable solver : @mat R -> list R -> option (list R).
+
+(* what the step hands to update_parameter in GN: the solver's answer for (W J, -W R) resp. (J, -R) *)
+Lemma gn_step_system (pb : @problem R) o :
+  gn_step corr gexp solver pb = Some o ->
+  exists Rv W J, assemble corr pb = Some (Rv, W, J) /\
+    tA o = (match W with None => J | Some W => mmul W J end) /\
+    tb o = (match W with None => vneg Rv | Some W => mapply (mneg W) Rv end) /\
+    solver (tA o) (tb o) = Some (tD o) /\
+    update_parameter gexp (pbP pb) (tD o) = Some (tP o).
+Proof.
+  unfold gn_step. destruct (assemble corr pb) as [[[Rv W] J]|]; [|discriminate].
+  destruct (gn_system Rv W J) as [A b] eqn:Es.
+  destruct (solver A b) as [D|] eqn:ED; [|discriminate].
+  destruct (update_parameter gexp (pbP pb) D) as [ps|] eqn:EU; [|discriminate].
+  intros H. inversion H; subst; clear H. cbn.
+  exists Rv, W, J. split; [reflexivity|].
+  unfold gn_system in Es. destruct W as [W|]; inversion Es; subst; auto.
+Qed.
+
+Lemma lm_trial_system Aprev JT Rv lam ps o :
+  lm_trial gexp solver Aprev JT Rv lam ps = TDone o ->
+  tA o = lm_damp lam Aprev /\ tb o = lm_b JT Rv /\ solver (tA o) (tb o) = Some (tD o) /\
+  update_parameter gexp ps (tD o) = Some (tP o).
+Proof.
+  unfold lm_trial. destruct (solver _ _) as [D|] eqn:ED; [|discriminate].
+  destruct (update_parameter gexp ps D) as [ps'|] eqn:EU; [|discriminate].
+  intros H. inversion H; subst; clear H. cbn. auto.
+Qed.
+
+Lemma lm_init_system mn mx (pb : @problem R) A0 JT Rv :
+  lm_init corr mn mx pb = Some (A0, JT, Rv) ->
+  exists W J, assemble corr pb = Some (Rv, W, J) /\
+    JT = (match W with None => mtr J | Some W => mmul (mtr J) W end) /\
+    A0 = map_diag (clampT mn mx) (mmul JT J).
+Proof.
+  unfold lm_init. destruct (assemble corr pb) as [[[Rv' W] J]|]; [|discriminate].
+  intros H. inversion H; subst; clear H. exists W, J. split; [reflexivity|]. split; [unfold lm_JT; now destruct W | reflexivity].
+Qed.
+
+(* a step of the faithful model with a frozen parameter (with at least one element) never happens:
+   whatever the solver returns for the full Jacobian (one entry per column = per parameter element),
+   the split over the trainable sizes raises *)
+Lemma gn_step_frozen_raises (pb : @problem R) :
+  (exists p, In p (pbP pb) /\ preq p = false /\ (0 < pnumel p)%nat) ->
+  (forall A b D, solver A b = Some D -> length D = sumnat (map (@pnumel R) (pbP pb))) ->
+  gn_step corr gexp solver pb = None.
+Proof.
+  intros Hex Hlen. unfold gn_step. destruct (assemble corr pb) as [[[Rv W] J]|]; [|reflexivity].
+  destruct (gn_system Rv W J) as [A b]. destruct (solver A b) as [D|] eqn:ED; [|reflexivity].
+  now rewrite (update_with_frozen_raises gexp (pbP pb) D Hex (Hlen _ _ _ ED)).
+Qed.
+Lemma lm_trial_frozen_raises Aprev JT Rv lam (ps : list (@param R)) :
+  (exists p, In p ps /\ preq p = false /\ (0 < pnumel p)%nat) ->
+  (forall A b D, solver A b = Some D -> length D = sumnat (map (@pnumel R) ps)) ->
+  lm_trial gexp solver Aprev JT Rv lam ps = TRaise \/ lm_trial gexp solver Aprev JT Rv lam ps = TSolverFailed.
+Proof.
+  intros Hex Hlen. unfold lm_trial. destruct (solver _ _) as [D|] eqn:ED; [|now right].
+  left. now rewrite (update_with_frozen_raises gexp ps D Hex (Hlen _ _ _ ED)).
+Qed.
+End Solver.
+
+(* ---- least squares: the normal equations characterise the minimisers of |A x - b|^2 ---- *)
+Definition sqn (v : list R) : R := Mat.vdot v v.
+
+Lemma vminus_split (u v w : list R) n : length u = n -> length v = n -> length w = n ->
+  vminus u w = vplus (vminus v w) (vminus u v).
+Proof.
+  intros Hu Hv Hw. apply (vec_ext n).
+  - now rewrite length_vminus.
+  - now rewrite length_vplus, length_vminus.
+  - intros i Hi. rewrite vget_vplus by (rewrite length_vminus; lia).
+    rewrite !vget_vminus by lia. cbn [add sub NumR]. ring.
+Qed.
+
+Lemma normal_eq_minimises n m A (b x : list R) : wf n m A -> length b = n -> length x = m ->
+  mapply (mtr A) (mapply A x) = mapply (mtr A) b ->
+  forall y, length y = m -> sqn (vminus (mapply A x) b) <= sqn (vminus (mapply A y) b).
+Proof.
+  intros HA Hb Hx Hne y Hy.
+  assert (LAx : length (mapply A x) = n) by (now apply (length_mapply n m)).
+  assert (LAy : length (mapply A y) = n) by (now apply (length_mapply n m)).
+  set (r := vminus (mapply A x) b). set (e := vminus y x).
+  assert (Lr : length r = n) by (unfold r; now rewrite length_vminus).
+  assert (Le : length e = m) by (unfold e; now rewrite length_vminus).
+  assert (HAe : mapply A e = vminus (mapply A y) (mapply A x))
+    by (unfold e; now apply (mapply_vminus n m)).
+  assert (Hdec : vminus (mapply A y) b = vplus r (mapply A e)).
+  { rewrite HAe. unfold r. now apply (vminus_split _ _ _ n). }
+  assert (LAe : length (mapply A e) = n) by (now apply (length_mapply n m)).
+  (* r is orthogonal to the range of A *)
+  assert (Hort : Mat.vdot r (mapply A e) = 0).
+  { rewrite (vdot_adjoint n m) by assumption. unfold r.
+    rewrite (mapply_vminus m n) by (eauto with wf). rewrite Hne.
+    unfold Mat.vdot. apply sumn_zero. intros k Hk. rewrite length_vminus in Hk.
+    rewrite vget_vminus by assumption. cbn [sub mul NumR]. ring. }
+  unfold sqn. rewrite Hdec.
+  rewrite vdot_vplus_l by lia. rewrite !vdot_vplus_r by lia.
+  rewrite Hort. rewrite (vdot_comm (mapply A e) r) by lia. rewrite Hort.
+  pose proof (vdot_self_nonneg (mapply A e)). cbn [add NumR]. lra.
+Qed.
+
+End Systems.
+
+(* ===================================================================================== *)
+(*  Part C: the weight expansion of normalize_RWJ                                          *)
+(* ===================================================================================== *)
+Lemma prodn_app a b : prodn (a ++ b) = (prodn a * prodn b)%nat.
+Proof. unfold prodn. induction a as [|x a IH]; cbn [app fold_right]; [lia|]. rewrite IH. lia. Qed.
+
+Lemma seq_add_map a n : seq a n = map (fun t => (a + t)%nat) (seq 0 n).
+Proof.
+  revert a. induction n as [|n IH]; intros a; [reflexivity|].
+  cbn [seq map]. f_equal; [lia|]. rewrite (IH (S a)), (IH 1%nat), map_map.
+  apply map_ext. intros t. lia.
+Qed.
+
+(* ws * ni : the whole list repeated, i.e. block t of the result is block (t mod len) of ws *)
+Lemma concat_repeat_map {X} (f : nat -> X) m P : (0 < m)%nat ->
+  concat (repeat (map f (seq 0 m)) P) = map (fun t => f (t mod m)) (seq 0 (P * m)).
+Proof.
+  intros Hm. induction P as [|P IH]; [reflexivity|].
+  cbn [repeat concat]. rewrite IH. replace (S P * m)%nat with (m + P * m)%nat by lia.
+  rewrite seq_app, map_app. f_equal.
+  - apply map_ext_in. intros t Ht. apply in_seq in Ht. now rewrite Nat.mod_small by lia.
+  - cbn [Nat.add]. rewrite (seq_add_map m), map_map. apply map_ext. intros t.
+    replace (m + t)%nat with (t + 1 * m)%nat by lia. now rewrite Nat.mod_add by lia.
+Qed.
+
+Section Weights.
+Context {F : Type} {NF : Num F}.
+
+(* block s of a weight tensor of shape suf ++ [d; d] *)
+Definition wblock (d : nat) (wdata : list F) (s : nat) : @mat F :=
+  chunks d d (skipn (s * (d * d)) wdata).
+
+(* weight_expansion_is_broadcast: residual of shape pre ++ suf ++ [d], weight of any documented shape
+   suf ++ [d; d] (R*R, N*R*R, M*N*R*R, B*M*N*R*R: suf = any suffix of the batch dimensions): the list
+   of diagonal blocks built by normalize_RWJ has one d x d block per residual item t (row-major over
+   the batch dimensions), and it is the weight item  t mod |suf|  -- the weight broadcast over the
+   leading batch dimensions.  Covers d = 1 (the `r.shape[-1] == 1` reshaping). *)
+Lemma weight_expansion_is_broadcast : forall (pre suf : list nat) (d : nat) (rdata wdata : list F),
+  (0 < d)%nat -> (0 < prodn suf)%nat ->
+  expand_weight {| tshape := pre ++ suf ++ [d]; tdata := rdata |}
+                {| tshape := suf ++ [d; d]; tdata := wdata |}
+  = Some (map (fun t => wblock d wdata (t mod prodn suf)) (seq 0 (prodn pre * prodn suf))).
+Proof.
+  intros pre suf d rdata wdata Hd Hs.
+  unfold expand_weight, last_dim, tnumel. cbn [tshape tdata].
+  assert (R1 : rev (pre ++ suf ++ [d]) = d :: rev suf ++ rev pre)
+    by (rewrite !rev_app_distr; reflexivity).
+  assert (R2 : rev (suf ++ [d; d]) = d :: d :: rev suf) by (rewrite rev_app_distr; reflexivity).
+  rewrite R1, R2.
+  assert (P2 : prodn (suf ++ [d; d]) = (prodn suf * (d * d))%nat)
+    by (rewrite prodn_app; cbn; lia).
+  assert (P1 : (prodn (pre ++ suf ++ [d]) * d = prodn pre * (prodn suf * (d * d)))%nat)
+    by (rewrite !prodn_app; cbn; lia).
+  assert (Hpos : (0 < prodn suf * (d * d))%nat) by (apply Nat.mul_pos_pos; [|apply Nat.mul_pos_pos]; assumption).
+  rewrite P1, P2.
+  replace (Nat.eqb (prodn suf * (d * d)) 0) with false by (symmetry; apply Nat.eqb_neq; lia).
+  rewrite Nat.div_mul by lia.
+  destruct (Nat.eqb d 1) eqn:E1.
+  - apply Nat.eqb_eq in E1. subst d.
+    assert (R3 : rev ((suf ++ [1; 1]) ++ [1; 1])%nat = (1 :: 1 :: 1 :: 1 :: rev suf)%nat)
+      by (rewrite !rev_app_distr; reflexivity).
+    rewrite R3. cbn [Nat.mul Nat.add Nat.eqb].
+    rewrite !prodn_app. cbn [prodn fold_right Nat.mul Nat.add].
+    rewrite !Nat.mul_1_r, Nat.div_1_r.
+    f_equal. rewrite <- concat_repeat_map by assumption. reflexivity.
+  - rewrite R2. replace (Nat.eqb (d * d) 0) with false by (symmetry; apply Nat.eqb_neq; nia).
+    rewrite P2, Nat.div_mul by nia.
+    f_equal. rewrite <- concat_repeat_map by assumption. reflexivity.
+Qed.
+
+(* several residuals: the blocks are concatenated in residual order *)
+Lemma expand_weights_app (Rs Ws : list (@tensor F)) r w a b :
+  expand_weight r w = Some a -> expand_weights Rs Ws = Some b ->
+  expand_weights (r :: Rs) (w :: Ws) = Some (a ++ b).
+Proof. intros Ha Hb. cbn. now rewrite Ha, Hb. Qed.
+
+(* ---- reshaping facts ---- *)
+Lemma firstn_plus {X} : forall a b (l : list X), firstn (a + b) l = firstn a l ++ firstn b (skipn a l).
+Proof.
+  induction a as [|a IH]; intros b l; [reflexivity|].
+  destruct l as [|x l]; [now rewrite !firstn_nil|]. cbn. now rewrite IH.
+Qed.
+Lemma concat_chunks_from w : forall n a (l : list F),
+  concat (map (fun t => chunk w t l) (seq a n)) = firstn (n * w) (skipn (a * w) l).
+Proof.
+  induction n as [|n IH]; intros a l; [reflexivity|].
+  cbn [seq map concat]. rewrite IH. unfold chunk.
+  replace (S n * w)%nat with (w + n * w)%nat by lia. rewrite firstn_plus, skipn_add.
+  now replace (a * w + w)%nat with (S a * w)%nat by lia.
+Qed.
+Lemma concat_chunks w n (l : list F) : length l = (n * w)%nat -> concat (chunks w n l) = l.
+Proof.
+  intros H. unfold chunks. rewrite concat_chunks_from. cbn [Nat.mul skipn]. rewrite <- H. apply firstn_all.
+Qed.
+Lemma chunk_length w t (l : list F) : ((t + 1) * w <= length l)%nat -> length (chunk w t l) = w.
+Proof. intros H. unfold chunk. rewrite firstn_length_le; [reflexivity|]. rewrite skipn_length. lia. Qed.
+
+Lemma zipw_map_seq {X Y Z} (h : X -> Y -> Z) (f : nat -> X) (g : nat -> Y) : forall a n,
+  zipw h (map f (seq a n)) (map g (seq a n)) = map (fun t => h (f t) (g t)) (seq a n).
+Proof. intros a n. revert a. induction n as [|n IH]; intros a; [reflexivity|]. cbn. now rewrite IH. Qed.
+
+(* a weight block is a d x d matrix when the weight tensor has enough data *)
+Lemma wblock_shape d wdata s : (0 < d)%nat -> ((s + 1) * (d * d) <= length wdata)%nat ->
+  wblock d wdata s <> [] /\ mcols (wblock d wdata s) = d /\ length (wblock d wdata s) = d /\
+  Forall (fun row => length row = d) (wblock d wdata s).
+Proof.
+  intros Hd Hlen. unfold wblock.
+  assert (Hrow : forall i, (i < d)%nat -> length (chunk d i (skipn (s * (d * d)) wdata)) = d).
+  { intros i Hi. apply chunk_length. rewrite skipn_length. nia. }
+  assert (HF : Forall (fun row => length row = d) (chunks d d (skipn (s * (d * d)) wdata))).
+  { apply Forall_forall. intros row Hin. unfold chunks in Hin. apply in_map_iff in Hin.
+    destruct Hin as [i [<- Hi]]. apply in_seq in Hi. apply Hrow. lia. }
+  assert (HL : length (chunks d d (skipn (s * (d * d)) wdata)) = d)
+    by (unfold chunks; now rewrite map_length, seq_length).
+  repeat split; try assumption.
+  - intros E. rewrite E in HL. cbn in HL. lia.
+  - destruct (chunks d d (skipn (s * (d * d)) wdata)) as [|row rows] eqn:E; [cbn in HL; lia|].
+    cbn. now inversion HF.
+Qed.
+End Weights.
+
+(* ---- W @ R for the block-diagonal W: block by block ---- *)
+Section BlockDiag.
+Local Open Scope R_scope.
+
+Definition rowdot (c : nat) (row v : list R) : R := sumn c (fun k => nth k row 0 * vget v k).
+
+Lemma map_nth_seq {X Y} (g : X -> Y) (l : list X) (d : X) :
+  map (fun i => g (nth i l d)) (seq 0 (length l)) = map g l.
+Proof.
+  induction l as [|x l IH]; [reflexivity|]. cbn [length seq map nth]. f_equal.
+  rewrite <- seq_shift, map_map. exact IH.
+Qed.
+Lemma mapply_rows (A : @mat R) v : mapply A v = map (fun row => rowdot (mcols A) row v) A.
+Proof. unfold mapply, mkvec, mrows. rewrite <- (map_nth_seq (fun row => rowdot (mcols A) row v) A []). reflexivity. Qed.
+
+Lemma sumn_split (a b : nat) (f : nat -> R) : sumn (a + b) f = sumn a f + sumn b (fun k => f (a + k)%nat).
+Proof.
+  induction b as [|b IH]; [rewrite Nat.add_0_r; cbn; lra|].
+  replace (a + S b)%nat with (S (a + b)) by lia. cbn [sumn]. rewrite IH. cbn [add NumR]. ring.
+Qed.
+
+Lemma nth_zeros n k : nth k (@zeros R _ n) 0 = 0.
+Proof. unfold zeros. revert k. induction n as [|n IH]; intros [|k]; cbn; auto. Qed.
+
+Lemma rowdot_left cM cB (row v u : list R) : length row = cM -> length v = cM ->
+  rowdot (cM + cB) (row ++ zeros cB) (v ++ u) = rowdot cM row v.
+Proof.
+  intros Hr Hv. unfold rowdot. rewrite sumn_split.
+  rewrite (sumn_zero cB); [|intros k Hk; rewrite app_nth2 by lia; rewrite nth_zeros; cbn [mul NumR]; ring].
+  rewrite Rplus_0_r. apply sumn_ext. intros k Hk. unfold vget. now rewrite !app_nth1 by lia.
+Qed.
+Lemma rowdot_right cM cB (row v u : list R) : length v = cM ->
+  rowdot (cM + cB) (zeros cM ++ row) (v ++ u) = rowdot cB row u.
+Proof.
+  intros Hv. unfold rowdot. rewrite sumn_split.
+  rewrite (sumn_zero cM); [|intros k Hk; rewrite app_nth1 by (unfold zeros; rewrite repeat_length; lia);
+                            rewrite nth_zeros; cbn [mul NumR]; ring].
+  rewrite Rplus_0_l. apply sumn_ext. intros k Hk. unfold vget.
+  rewrite !app_nth2 by (unfold zeros; try rewrite repeat_length; lia).
+  unfold zeros. rewrite repeat_length. now replace (cM + k - cM)%nat with k by lia; rewrite Hv;
+    replace (cM + k - cM)%nat with k by lia.
+Qed.
+
+Definition blk_ok (M : @mat R) (v : list R) : Prop :=
+  M <> [] /\ Forall (fun row => length row = mcols M) M /\ length v = mcols M.
+
+Lemma mapply_block_diag : forall (Ms : list (@mat R)) (vs : list (list R)),
+  Forall2 blk_ok Ms vs ->
+  mapply (block_diag Ms) (concat vs) = concat (zipw mapply Ms vs) /\
+  Forall (fun row => length row = mcols (block_diag Ms)) (block_diag Ms) /\
+  length (concat vs) = mcols (block_diag Ms).
+Proof.
+  induction 1 as [|M v Ms vs [Hne [HF Hv]] Hrest [IHm [IHF IHl]]].
+  - cbn. repeat split; constructor.
+  - cbn [block_diag concat zipw]. set (B := block_diag Ms) in *. set (u := concat vs) in *.
+    set (cM := mcols M) in *. set (cB := mcols B) in *.
+    destruct M as [|row0 M']; [congruence|].
+    assert (Hc : mcols (map (fun row => row ++ zeros cB) (row0 :: M') ++ map (fun row => zeros cM ++ row) B) = (cM + cB)%nat).
+    { cbn. rewrite app_length. unfold zeros. rewrite repeat_length. reflexivity. }
+    split; [|split].
+    + rewrite mapply_rows, Hc, map_app, !map_map. f_equal.
+      * rewrite mapply_rows. fold cM. apply map_ext_in. intros row Hin.
+        rewrite Forall_forall in HF. apply rowdot_left; [now apply HF | assumption].
+      * rewrite <- IHm. rewrite mapply_rows. fold cB. apply map_ext_in. intros row Hin.
+        apply rowdot_right. assumption.
+    + rewrite Hc. apply Forall_app. split; apply Forall_forall; intros row Hin; apply in_map_iff in Hin;
+        destruct Hin as [r0 [<- Hin]]; rewrite app_length; unfold zeros; rewrite repeat_length.
+      * rewrite Forall_forall in HF. now rewrite (HF _ Hin).
+      * rewrite Forall_forall in IHF. now rewrite (IHF _ Hin).
+    + rewrite Hc, app_length. now rewrite Hv, IHl.
+Qed.
+
+(* the weighted residual W @ R of one residual tensor: item t of the residual (row-major over
+   ALL batch dimensions) is multiplied by weight item  t mod |suf| *)
+Lemma weighted_residual_is_broadcast (pre suf : list nat) (d : nat) (rdata wdata : list R) :
+  (0 < d)%nat -> (0 < prodn suf)%nat ->
+  length wdata = (prodn suf * (d * d))%nat -> length rdata = (prodn pre * prodn suf * d)%nat ->
+  exists Ms, expand_weight {| tshape := pre ++ suf ++ [d]; tdata := rdata |}
+                           {| tshape := suf ++ [d; d]; tdata := wdata |} = Some Ms /\
+    mapply (block_diag Ms) rdata =
+    concat (map (fun t => mapply (wblock d wdata (t mod prodn suf)) (chunk d t rdata))
+                (seq 0 (prodn pre * prodn suf))).
+Proof.
+  intros Hd Hs Hw Hr. eexists. split; [now apply weight_expansion_is_broadcast|].
+  set (N := (prodn pre * prodn suf)%nat).
+  rewrite <- (concat_chunks d N rdata) at 1 by (subst N; lia).
+  unfold chunks at 1.
+  assert (HF2 : Forall2 blk_ok (map (fun t => wblock d wdata (t mod prodn suf)) (seq 0 N))
+                               (map (fun t => chunk d t rdata) (seq 0 N))).
+  { assert (G : forall a n, (a + n <= N)%nat ->
+       Forall2 blk_ok (map (fun t => wblock d wdata (t mod prodn suf)) (seq a n))
+                      (map (fun t => chunk d t rdata) (seq a n))).
+    { intros a n. revert a. induction n as [|n IH]; intros a Han; [constructor|].
+      cbn [seq map]. constructor; [|apply IH; lia].
+      assert (Hm : (a mod prodn suf < prodn suf)%nat) by (apply Nat.mod_upper_bound; lia).
+      destruct (wblock_shape d wdata (a mod prodn suf) Hd) as (H1 & H2 & _ & H4); [rewrite Hw; nia|].
+      unfold blk_ok. rewrite H2. repeat split; try assumption.
+      apply chunk_length. rewrite Hr. subst N. nia. }
+    apply G. lia. }
+  destruct (mapply_block_diag _ _ HF2) as [Hm _]. rewrite Hm. now rewrite zipw_map_seq.
+Qed.
+End BlockDiag.
+
+(* ===================================================================================== *)
+(*  Part D: the k-th trial of a call, and the faithful model on a frozen parameter          *)
+(* ===================================================================================== *)
+Lemma lm_A_snoc {F} {NF : Num F} (A0 : @mat F) lams lam : lm_A A0 (lams ++ [lam]) = lm_damp lam (lm_A A0 lams).
+Proof. unfold lm_A. now rewrite fold_left_app. Qed.
+
+Section Witness.
+Local Open Scope R_scope.
+(* r = a + c with a trainable, c frozen (requires_grad = False); modjac's Jacobian has a column for each *)
+Definition frozen_pb : @problem R :=
+  {| pbR := [{| tshape := [1%nat]; tdata := [1] |}];
+     pbJ := [[[1]; [1]]];
+     pbW := None; pbC := [CTrivial];
+     pbP := [{| pk := Euclid; pdata := [0]; preq := true |}; {| pk := Euclid; pdata := [0]; preq := false |}] |}.
+
+Lemma frozen_pb_assemble corr : assemble corr frozen_pb = Some ([1], None, [[1; 1]]).
+Proof. reflexivity. Qed.
+
+Lemma frozen_pb_raises corr gexp solver :
+  (forall A b, exists D, solver A b = Some D /\ length D = mcols A) ->
+  gn_step corr gexp solver frozen_pb = None.
+Proof.
+  intros Hs. unfold gn_step. rewrite frozen_pb_assemble. cbn [gn_system].
+  destruct (Hs [[1; 1]] (vneg [1])) as [D [HD HL]]. rewrite HD.
+  rewrite (update_with_frozen_raises gexp (pbP frozen_pb) D); [reflexivity | | exact HL].
+  exists {| pk := Euclid; pdata := [0]; preq := false |}. cbn. repeat split; auto.
+Qed.
+
+(* the same step when nothing is frozen: it happens, and the parameters move by the solver's answer *)
+Definition free_pb : @problem R :=
+  {| pbR := [{| tshape := [1%nat]; tdata := [1] |}];
+     pbJ := [[[1]; [1]]];
+     pbW := None; pbC := [CTrivial];
+     pbP := [{| pk := Euclid; pdata := [0]; preq := true |}; {| pk := Euclid; pdata := [0]; preq := true |}] |}.
+Lemma free_pb_steps corr gexp (solver : @mat R -> list R -> option (list R)) d1 d2 :
+  solver [[1; 1]] (vneg [1]) = Some [d1; d2] ->
+  exists o, gn_step corr gexp solver free_pb = Some o /\ tD o = [d1; d2] /\
+            map (@pdata R) (tP o) = [[0 + d1]; [0 + d2]].
+Proof.
+  intros Hs. unfold gn_step.
+  assert (Ha : assemble corr free_pb = Some ([1], None, [[1; 1]])) by reflexivity.
+  rewrite Ha. cbn [gn_system]. rewrite Hs. eexists. split; [reflexivity|]. split; reflexivity.
+Qed.
+End Witness.
